@@ -68,6 +68,29 @@ def body_of(src, header_re, what):
     die(f"unbalanced braces in `{what}`")
 
 
+def params_of(src, name):
+    """Names of the (non-self) parameters of `fn name(...)`, in order."""
+    ms = list(re.finditer(rf"fn\s+{name}\s*\(", src))
+    if len(ms) != 1:
+        die(f"expected exactly one `fn {name}`, found {len(ms)}")
+    i = ms[0].end()
+    depth, j = 1, i
+    while j < len(src) and depth:
+        depth += src[j] in "(<["
+        depth -= src[j] in ")>]"
+        j += 1
+    names = []
+    for part in re.split(r",(?![^<(]*[>)])", src[i:j - 1]):
+        part = part.strip()
+        if not part or re.fullmatch(r"&?\s*(mut\s+)?self", part):
+            continue
+        m = re.match(r"(?:mut\s+)?(\w+)\s*:", part)
+        if not m:
+            die(f"cannot read a parameter of `fn {name}`: {part!r}")
+        names.append(m.group(1))
+    return names
+
+
 def one(pattern, text, what, flags=0):
     ms = re.findall(pattern, text, flags)
     if len(ms) != 1:
@@ -137,29 +160,39 @@ def main():
 
     # classify: comparisons in textual order, and the order of the returned statuses
     cl = body_of(mod, r"fn\s+classify\s*\(", "fn classify")
-    cmps = re.findall(r"\b(support|opposition)\s*(>=|<=|>|<)\s*policy\s*\.\s*(accept|material)\b", cl)
+    cp = params_of(mod, "classify")
+    if len(cp) != 4:
+        die(f"classify: expected 4 parameters (support, opposition, ledger, policy), found {cp}")
+    p_sup, p_opp, p_led, p_pol = cp
+    raw = re.findall(rf"\b({p_sup}|{p_opp})\s*(>=|<=|>|<)\s*{p_pol}\s*\.\s*(accept|material)\b", cl)
+    cmps = [("support" if a == p_sup else "opposition", b, c) for a, b, c in raw]
     if len(cmps) != 6:
         die(f"classify: expected 6 threshold comparisons, found {len(cmps)}")
     rets = re.findall(r"BeliefStatus::(\w+)", cl)
     engaged = one(r"let\s+engaged\s*=\s*(.*?);", cl, "`let engaged =` in classify", re.S)
-    engaged_terms = re.findall(r"(support_groups\s*>\s*0|opposition_groups\s*>\s*0|!\s*ledger\s*\.\s*uncertain\s*\.\s*is_empty\(\))", engaged)
+    engaged_terms = [re.sub(rf"\b{p_led}\s*\.\s*", "", t) for t in
+                     re.findall(rf"({p_led}\s*\.\s*support_groups\s*>\s*0|{p_led}\s*\.\s*opposition_groups\s*>\s*0|!\s*{p_led}\s*\.\s*uncertain\s*\.\s*is_empty\(\))", engaged)]
     engaged_ops = re.findall(r"\|\||&&", engaged)
 
     # eligible: status arms, state check, window comparisons, unstated confidence
     el = body_of(mod, r"fn\s+eligible\s*\(", "fn eligible")
+    ep = params_of(mod, "eligible")
+    if len(ep) != 3:
+        die(f"eligible: expected 3 parameters (row, policy, at), found {ep}")
+    p_row, p_epol, p_at = ep
     status_arms = re.findall(r'"(\w+)"\s*=>\s*(?:\{\s*\}|return\s+reject\(\s*"(\w+)"\s*\))', el)
     other_arm = one(r'_\s*=>\s*return\s+reject\(\s*"(\w+)"\s*\)', el, "the `_ =>` status arm in eligible")
-    not_visible = one(r'if\s+row\.state\s*!=\s*[\w:]*ACTIVE\s*\{\s*return\s+reject\(\s*"(\w+)"\s*\)', el, "the state check in eligible")
-    from_cmp = one(r"row\.valid_from\.as_str\(\)\s*(>=|<=|>|<)\s*at", el, "the valid_from comparison in eligible")
-    until_cmp = one(r"row\.valid_until\.as_str\(\)\s*(>=|<=|>|<)\s*at", el, "the valid_until comparison in eligible")
-    window_reasons = re.findall(r'row\.valid_(?:from|until)\.as_str\(\)[^{]*\{\s*return\s+reject\(\s*"(\w+)"\s*\)', el)
-    unstated_cmp = one(r"row\.confidence\s*(>=|<=|>|<)\s*0\.0", el, "the unstated-confidence test in eligible")
+    not_visible = one(rf'if\s+{p_row}\.state\s*!=\s*[\w:]*ACTIVE\s*\{{\s*return\s+reject\(\s*"(\w+)"\s*\)', el, "the state check in eligible")
+    from_cmp = one(rf"{p_row}\.valid_from\.as_str\(\)\s*(>=|<=|>|<)\s*{p_at}\b", el, "the valid_from comparison in eligible")
+    until_cmp = one(rf"{p_row}\.valid_until\.as_str\(\)\s*(>=|<=|>|<)\s*{p_at}\b", el, "the valid_until comparison in eligible")
+    window_reasons = re.findall(rf'{p_row}\.valid_(?:from|until)\.as_str\(\)[^{{]*\{{\s*return\s+reject\(\s*"(\w+)"\s*\)', el)
+    unstated_cmp = one(rf"{p_row}\.confidence\s*(>=|<=|>|<)\s*0\.0", el, "the unstated-confidence test in eligible")
 
     # aggregate: the two side filters, clamp bounds, fold seed
     ag = body_of(mod, r"fn\s+aggregate\s*\(", "fn aggregate")
     clamp = one(r"\.clamp\(\s*([0-9.]+)\s*,\s*([0-9.]+)\s*\)", ag, "clamp(…) in aggregate")
-    side_opp = bool(re.search(r'candidate\.opposes_target\s*\|\|\s*candidate\.stance\s*==\s*"reject"', ag))
-    side_sup = bool(re.search(r'!\s*candidate\.opposes_target\s*&&\s*candidate\.stance\s*==\s*"support"', ag))
+    side_opp = bool(re.search(r'(\w+)\.opposes_target\s*\|\|\s*\1\.stance\s*==\s*"reject"', ag))
+    side_sup = bool(re.search(r'!\s*(\w+)\.opposes_target\s*&&\s*\1\.stance\s*==\s*"support"', ag))
     if not (side_opp and side_sup):
         die("aggregate: the side filters are not the expected `opposes_target || reject` / `!opposes_target && support`")
 
@@ -213,7 +246,7 @@ def main():
     w('theorem gen_mode_exclusion : modeExclusion = [("hypothetical", "hypothetical_not_requested"), ("predicted", "prediction_not_requested"), ("none", "invalid_schema"), ("_", "policy_excluded")] := by decide')
     w('theorem gen_settings_refusal : settingsRefusal = ">" ∧ thresholdRange = ("0.0", "1.0") ∧ customSuffix = "+custom" := by decide')
     w('theorem gen_classify_skeleton : classifyComparisons = [("support", ">=", "accept"), ("opposition", "<", "material"), ("opposition", ">=", "accept"), ("support", "<", "material"), ("support", ">=", "material"), ("opposition", ">=", "material")] ∧ classifyReturns = ["Insufficient", "Accepted", "Rejected", "Contested", "Uncertain"] := by decide')
-    w('theorem gen_engaged : engagedTerms = ["support_groups>0", "opposition_groups>0", "!ledger.uncertain.is_empty()"] ∧ engagedOps = ["||", "||"] := by decide')
+    w('theorem gen_engaged : engagedTerms = ["support_groups>0", "opposition_groups>0", "!uncertain.is_empty()"] ∧ engagedOps = ["||", "||"] := by decide')
     w('theorem gen_eligible_skeleton : statusArms = [("active", ""), ("retracted", "retracted"), ("superseded", "superseded"), ("expired", "expired"), ("_", "invalid_schema")] ∧ notVisibleReason = "not_visible" ∧ validFromExcludedWhen = ">" ∧ validUntilExcludedWhen = "<=" ∧ windowReasons = ["outside_valid_time", "outside_valid_time"] ∧ unstatedWhenConfidence = "< 0" ∧ clampBounds = ("0.0", "1.0") := by decide')
     w("")
     w("end AndaVerif.Gen.BeliefPolicy")
